@@ -35,7 +35,7 @@ ASSUMPTIONS = [
     "iterative algorithm: the local-minimum clause is replaced by the fixed-point clause (minimising the cost with the covariance frozen at the reported optimum must stay within 2e-2 reference sigma for iminuit, 1e-1 for scipy = two scipy states of 5e-2 each; observed 0.061)",
     "multi-fits: the reference objective is the sum of the members' reference costs over the union of the parameter names (members share parameters only; sources shared through MultiFit.add_error are the workload of C10 / C11); the members use the default 'nonlinear' algorithm (the MultiFit's own dynamic_error_algorithm argument is not consulted by kafe2); a parameter fixed / limited on a member fit before the MultiFit is created counts as fixed / limited for the combined fit (for a shared parameter: declared on one of the members that have it); the same clauses, tolerances and well-posedness rules as for single fits apply to the joint optimum",
     "a local-minimum alarm of the scipy backend is attributed to the open scipy-adapter finding by the 'do_fit() again continues' signature only if iminuit's optimum of the same case passed the clause (or rests on a limit): a failure that both backends share is not a property of the scipy adapter",
-    "a fixed-point alarm is attributed to the finding 'the iterative algorithm alternates between two points and returns unconverged' iff the reference iteration map T (covariance frozen at a point, documented cost minimised over the interior free parameters) sends the reported optimum p to q and q back to p, |T(q) - p| <= 0.1 |q - p| in reference sigma (a result that stopped short of a fixed point the iteration converges to has T(q) next to q and stays unclassified)",
+    "a fixed-point alarm is attributed to the finding 'the iterative algorithm returns unconverged after max_iterations' iff (a) a fresh do_fit() of the same case runs all 1 + max_iterations passes (counted at FitBase._post_fit_iteration) and (b) the reference iteration map T (covariance frozen at a point, documented cost minimised over the interior free parameters) alternates at the reported optimum p without contracting by a factor 2: with q = T(p), (T(q) - q).(q - p) < 0 and |T(q) - q| >= 0.5 |q - p| in reference sigma (a result that stopped short of a fixed point the iteration settles on has T(q) next to q and stays unclassified, as does any result reached in fewer passes)",
     "cross-backend clause uses sigma from the reference Hessian over interior free parameters (1e-1 sigma = sum of the per-backend tolerances of C05, rounded up); a parameter on a limit must be on the same limit for both backends",
 ]
 ANCHORS = [
@@ -371,7 +371,7 @@ def optimum(mb):
     return np.array(mb.fit.parameter_values, dtype=float)
 
 
-def run_backend(case, minimizer):
+def run_backend(case, minimizer, before_fit=None):
     mb = MultiMember(case, minimizer) if case.get("kind") == "multi" else Member(case["spec"], case["setup"], minimizer=minimizer)
     fit = mb.fit
     on_member = case.get("declared_on_member", {})
@@ -383,6 +383,8 @@ def run_backend(case, minimizer):
             fit.limit_parameter(nm, lo, hi)
     if case["start"]:
         fit.set_parameter_values(**case["start"])
+    if before_fit is not None:
+        before_fit(mb)
     fit.do_fit()
     mb.sync_from_fit()
     return mb
@@ -520,13 +522,11 @@ def run_case(ctx, case):
             res = optimize.minimize(g, p[interior_idx], method="Nelder-Mead", options={"xatol": 1e-7, "fatol": 1e-10, "maxiter": 4000, "initial_simplex": simplex(p[interior_idx], sig * 0.05)})
             shift = np.abs(res.x - p[interior_idx]) / sig
             fp_ok = bool(np.all(shift <= (2e-2 if minimizer == "iminuit" else 1e-1)))
-            if not fp_ok:
-                oscillating[minimizer] = True
             ctx.check(
                 "iterative-fixed-point",
                 fp_ok,
                 lambda: dict(d, refit_optimum=res.x, shift_in_sigma=shift, frozen_cost_at_optimum=g(p[interior_idx]), frozen_cost_refit=float(res.fun)),
-                key=lambda: two_cycle(mb, names, fixed, limited, p, interior_idx, res.x, sig, shift),
+                key=lambda: unconverged_iteration(case, minimizer, mb, names, fixed, limited, p, interior_idx, res.x, sig, oscillating),
             )
             ctx.worst["iterative_shift_sigma_" + minimizer] = max(ctx.worst.get("iterative_shift_sigma_" + minimizer, 0.0), float(shift.max()))
         else:
@@ -614,7 +614,7 @@ def run_case(ctx, case):
                 "backends-agree",
                 abs(ca - cb) <= 1e-2,
                 lambda: {"iminuit": pa, "scipy": pb, "on_limit": [la, lb], "costs": [ca, cb]},
-                key=lambda: "C06/scipy-backend-accepts-unconverged-result" if premature.get("scipy") else ("C06/iminuit-stays-on-limit-it-was-started-next-to" if stuck.get("iminuit") else None),
+                key=lambda: "C06/scipy-backend-accepts-unconverged-result" if premature.get("scipy") else ("C06/iminuit-stays-on-limit-it-was-started-next-to" if stuck.get("iminuit") else (UNCONVERGED_ITERATION_KEY if iterative and any(oscillating.values()) else None)),
             )
         else:
             s = np.maximum(sig_by["iminuit"], sig_by["scipy"])
@@ -641,7 +641,7 @@ def run_case(ctx, case):
                 "backends-agree",
                 agree,
                 lambda: {"iminuit": pa, "scipy": pb, "deviation_in_sigma_ref": dev, "sigma_ref": s, "tolerance": tolb},
-                key=lambda: "C06/scipy-backend-accepts-unconverged-result" if premature.get("scipy") else (OSCILLATION_KEY if iterative and any(oscillating.values()) and backends_on_two_cycle(results, names, fixed, limited, pa, pb, s) else None),
+                key=lambda: "C06/scipy-backend-accepts-unconverged-result" if premature.get("scipy") else (UNCONVERGED_ITERATION_KEY if iterative and any(oscillating.values()) else None),
             )
             if dev.size:
                 ctx.worst["backend_deviation_sigma"] = max(ctx.worst.get("backend_deviation_sigma", 0.0), float(dev.max()))
@@ -664,11 +664,11 @@ def two_attractors(case, names, pa, pb, s):
         return False
 
 
-OSCILLATION_KEY = "C06/iterative-algorithm-alternates-between-two-points-and-returns-unconverged"
+UNCONVERGED_ITERATION_KEY = "C06/iterative-algorithm-returns-unconverged-after-max-iterations"
 
 
 def frozen_refit(mb, names, fixed, limited, at, interior_idx, start, step):
-    """one step of the reference iteration map: covariance frozen at the point `at`, documented cost minimised over the interior free
+    """one step of the reference iteration map T: covariance frozen at the point `at`, documented cost minimised over the interior free
     parameters (the others stay where they are in `at`), started at `start`"""
     V = mb.ref.total_cov(at)
     ok, cond = pd_info(V)
@@ -685,41 +685,51 @@ def frozen_refit(mb, names, fixed, limited, at, interior_idx, start, step):
     return res.x
 
 
-def two_cycle(mb, names, fixed, limited, p, interior_idx, q, sig, shift):
-    """open finding: the iterative algorithm (refit with the uncertainties frozen at the previous optimum until the cost stops changing,
-    at most max_iterations = 10 times) does not converge when the iteration alternates between two points; do_fit() then returns the
-    point it happens to be at, without a warning.  Signature / explain-check (reference model only): the reference iteration map T
-    sends the reported optimum p to q = T(p) far from p, and q back to p (|T(q) - p| <= 0.1 |q - p|, measured in reference sigma):
-    p is one point of a 2-cycle of the iteration, so the iteration cannot have converged.  (A result that is merely short of a fixed
-    point the iteration converges to has T(q) next to q, not next to p.)"""
+def count_passes(case, minimizer):
+    """number of minimisations one do_fit() of this case runs (a fresh object; observed at FitBase._post_fit_iteration)"""
+    n = [0]
+
+    def hook(mb):
+        post = mb.fit._post_fit_iteration
+
+        def counted(*a, **kw):
+            n[0] += 1
+            return post(*a, **kw)
+
+        mb.fit._post_fit_iteration = counted
+
+    run_backend(case, minimizer, before_fit=hook)
+    return n[0]
+
+
+def unconverged_iteration(case, minimizer, mb, names, fixed, limited, p, interior_idx, q, sig, flags):
+    """open finding: the iterative algorithm (refit with the uncertainties frozen at the previous optimum until the cost changes by less
+    than convergence_limit, at most max_iterations times) gives up silently when the iteration alternates around the fixed point
+    without settling (2-cycle, or an alternation that shrinks too slowly); do_fit() then reports the point of the last pass.
+    Signature / explain-check, both parts needed:
+    (a) observed on a fresh object of the same case: do_fit() ran all 1 + max_iterations passes (the loop ended because the passes were
+        used up, not because the cost had settled);
+    (b) reference model only: the reference iteration map T sends the reported optimum p to q = T(p) and q back towards p, by at least
+        half the way: (T(q) - q).(q - p) < 0 and |T(q) - q| >= 0.5 |q - p| in reference sigma, i.e. the iteration itself alternates and
+        contracts by less than a factor 2 per pass (a result that is short of a fixed point the iteration settles on has T(q) next to q)."""
     try:
+        from kafe2.config import kc
+
+        if count_passes(case, minimizer) != 1 + int(kc("fit", "iterative_do_fit", "max_iterations")):
+            return None
         at = np.array(p, dtype=float)
         at[interior_idx] = q
-        for start in (q, p[interior_idx]):
-            back_x = frozen_refit(mb, names, fixed, limited, at, interior_idx, start, sig * 0.05)
-            if back_x is None:
-                return None
-            back = np.abs(back_x - p[interior_idx]) / sig
-            if float(back.max()) <= 0.1 * float(np.max(shift)):
-                return OSCILLATION_KEY
+        tq = frozen_refit(mb, names, fixed, limited, at, interior_idx, q, sig * 0.05)
+        if tq is None:
+            return None
+        step1 = (np.asarray(q) - p[interior_idx]) / sig
+        step2 = (tq - np.asarray(q)) / sig
+        if float(np.dot(step1, step2)) < 0 and float(np.linalg.norm(step2)) >= 0.5 * float(np.linalg.norm(step1)):
+            flags[minimizer] = True
+            return UNCONVERGED_ITERATION_KEY
     except Exception:
         pass
     return None
-
-
-def backends_on_two_cycle(results, names, fixed, limited, pa, pb, s):
-    """the two backends ended on the two different points of the same 2-cycle: T(pa) = pb and T(pb) = pa (same measure as two_cycle)"""
-    try:
-        idx = [i for i, nm in enumerate(names) if nm not in fixed and s[i] > 0]
-        mb = results["iminuit"]
-        dist = float(np.max(np.abs(pa - pb)[idx] / s[idx]))
-        for a, b in ((pa, pb), (pb, pa)):
-            x = frozen_refit(mb, names, fixed, limited, a, idx, a[idx], s[idx] * 0.05)
-            if x is None or float(np.max(np.abs(x - b[idx]) / s[idx])) > 0.1 * dist:
-                return False
-        return True
-    except Exception:
-        return False
 
 
 def premature_scipy(case, mb, names, fixed, limited, tol, refit_signature=True):
